@@ -794,6 +794,24 @@ func (p *pool) mutateJWE(c Case, e1, e2 []byte) ([]byte, string, bool, error) {
 		out.SetProtectedMap(pm)
 
 		return out.Bytes(), fmt.Sprintf("WJwe (set_prot (Some (%s (P w1))) (J w1))", upd), false, nil
+	case "reser":
+		// the compact envelope re-serialized in the flattened / general JSON syntax: same fields, must unpack the same
+		if !r1.Compact {
+			return nil, "", false, fmt.Errorf("reser needs the compact form")
+		}
+
+		var b []byte
+
+		if m.Arg == "flattened" {
+			b, _ = json.Marshal(map[string]string{"protected": r1.Protected, "encrypted_key": r1.Recipients[0].EncryptedKey,
+				"iv": r1.IV, "ciphertext": r1.Ciphertext, "tag": r1.Tag})
+		} else {
+			g := r1.Clone()
+			g.Compact = false
+			b = g.Bytes()
+		}
+
+		return b, "w1", false, nil
 	case "unprot":
 		// a shared unprotected header (JSON serialization): nothing in it is authenticated and the packers must not
 		// take anything from it
@@ -1387,6 +1405,12 @@ func (p *pool) gen(tr *hx.Trace, rng *hx.Rng, thorough bool) {
 
 				emit("prot", pr, Mut{Kind: "prot", Arg: a}, victim, via)
 			}
+		}
+
+		if !legacy && n == 1 {
+			emit("reser", pr, Mut{Kind: "reser", Arg: "flattened"}, victim, via)
+			emit("reser", pr, Mut{Kind: "reser", Arg: "general"}, victim, via)
+			emit("reser", pr, Mut{Kind: "reser", Arg: "flattened"}, 5, via)
 		}
 
 		// per-recipient headers and the recipients array (JSON serialization)
